@@ -46,7 +46,11 @@ def hrb_quote(s):
 
 def lib_path(lib):
     return {"a": "./lib/libprobe_a.so", "b": "./lib/libprobe_b.so", "missing": "./lib/nonexistent_probe.so",
-            "bare": "libprobe_bare.so"}[lib]
+            "bare": "libprobe_bare.so",
+            # a backslash is an ordinary file-name character here: this file exists, ...
+            "bs": "./lib/plug\\libprobe.so",
+            # ... this one does not, although a look-alike with a slash does
+            "missing_bs": "./lib/vendor\\nolib.so"}[lib]
 
 
 def describe(tag, args):
@@ -71,10 +75,12 @@ def build_program(case):
             L.append("\t%s %s" % (ins, hrb_quote(src)))
         L.append("\tcall_lib %s %s" % (hrb_quote(lib_path(c["lib"])), c["sym"]))
         L += ['\tprintn "*"', "\tvoid"]
-        tag = {"a": "A", "b": "B", "bare": "A"}.get(c["lib"])
+        tag = {"a": "A", "b": "B", "bare": "A", "bs": "B"}.get(c["lib"])
         fault = c.get("fault")
         if c["lib"] == "missing":
             fail = {"at": i, "needle": "nonexistent_probe.so"}
+        elif c["lib"] == "missing_bs":
+            fail = {"at": i, "needle": "nolib.so"}
         elif fault == "dlopen_null":
             fail = {"at": i, "needle": os.path.basename(lib_path(c["lib"]))}
         elif c["sym"] == "probe_absent":
@@ -199,7 +205,7 @@ def gen_cases(tier, seed):
         for _ in range(rng.range(1, 4)):
             args = [(k, rng.below(len(VALUES[k]))) for k in [rng.choice(KINDS) for _ in range(rng.range(0, 6))]]
             sym = rng.weighted([("probe_echo", 5), ("probe_none", 2), ("probe_first", 2), ("probe_last", 2), ("probe_raise", 1), ("probe_absent", 1)])
-            lib = rng.weighted([("a", 5), ("b", 5), ("bare", 2), ("missing", 1)])
+            lib = rng.weighted([("a", 5), ("b", 5), ("bare", 2), ("missing", 1), ("bs", 2), ("missing_bs", 1)])
             if sym in ("probe_first", "probe_last") and not args and rng.chance(2, 3):
                 args = [("int", 0)]
             calls.append({"lib": lib, "sym": sym, "args": args})
@@ -221,6 +227,9 @@ def run_case(case):
     os.mkdir(os.path.join(world, "lib"))
     os.symlink(PROBE_A, os.path.join(world, "lib", "libprobe_a.so"))
     os.symlink(PROBE_B, os.path.join(world, "lib", "libprobe_b.so"))
+    os.symlink(PROBE_B, os.path.join(world, "lib", "plug\\libprobe.so"))
+    os.makedirs(os.path.join(world, "lib", "vendor"))
+    os.symlink(PROBE_A, os.path.join(world, "lib", "vendor", "nolib.so"))      # the look-alike decoy
     os.mkdir(os.path.join(world, "search"))
     os.symlink(PROBE_A, os.path.join(world, "search", "libprobe_bare.so"))
     plan = case["plan"]
